@@ -127,6 +127,7 @@ impl WorkerTree {
             .count();
 
         if total_not_done == 0 {
+            self.clean_files(resources);
             return Ok(());
         }
 
